@@ -127,6 +127,55 @@ let () =
       let v = match parse_wire (unhex wire) with
         | Ok os -> show_res ~sugg:true (ipv6cp_req (unhex iid) (List.init 8 (fun _ -> N0)) oracle os).v6_res | _ -> "unparsed" in
       Printf.bprintf cur "%s ; st=%d ; P=%s ; V %s\n" (show_acts ~sugg:true acts) (int_of_n st') (hexs p) v
+    | "hh" :: proto :: rest ->
+      (* two objects of one protocol with different configurations; ops are prefixed with the object index *)
+      let secs = Str.split (Str.regexp_string " | ") (String.concat " " rest) in
+      (match secs with
+       | [c0; c1; opsl] ->
+         let ops = tokens opsl in
+         (match proto with
+          | "i" ->
+            let mk c = (match tokens c with [pa; d1; d2] -> { io_cfg = ipcp_cfg_of pa d1 d2; io_peer = ipeer0 } | _ -> failwith "cfg") in
+            let st = [| mk c0; mk c1 |] in
+            let outs = List.map (fun tok ->
+                let i = Char.code tok.[0] - 48 in
+                let tl = String.sub tok 2 (String.length tok - 2) in
+                let op = match tok.[1] with
+                  | 'q' -> IReq (opts_of tl) | 'a' -> IAck (opts_of tl) | 'n' -> INak (opts_of tl) | 'j' -> IRej (opts_of tl)
+                  | 'P' -> ISetPeer (ip_tok tl)
+                  | 'D' -> (match String.split_on_char '/' tl with [x; y] -> ISetDNS (ip_tok x, ip_tok y) | _ -> failwith "D")
+                  | _ -> failwith "op" in
+                let (s', r) = iobj_step fl st.(i) op in
+                st.(i) <- s';
+                match r with Some r -> show_res r | None -> "B=" ^ show_opts (build_confreq s'.io_cfg)) ops in
+            emit (String.concat " | " outs ^ " ; P=" ^ show_ipeer st.(0).io_peer ^ " ; P=" ^ show_ipeer st.(1).io_peer)
+          | "l" ->
+            let st = [| lobj0 (n_of_decimal (String.trim c0)); lobj0 (n_of_decimal (String.trim c1)) |] in
+            let outs = List.map (fun tok ->
+                let i = Char.code tok.[0] - 48 in
+                let tl = String.sub tok 2 (String.length tok - 2) in
+                let op = match tok.[1] with
+                  | 'q' -> LReq (opts_of tl) | 'a' -> LAck (opts_of tl) | 'n' -> LNak (opts_of tl) | 'j' -> LRej (opts_of tl)
+                  | 'M' -> LSetMagic (n_of_decimal tl)
+                  | _ -> failwith "op" in
+                let (s', r) = lobj_step fl st.(i) op in
+                st.(i) <- s';
+                match r with Some r -> show_res ~sugg:true r | None -> "B=" ^ show_opts (lcp_build s')) ops in
+            emit (String.concat " | " outs ^ " ; P=" ^ show_lpeer st.(0).lo_peer ^ " ; P=" ^ show_lpeer st.(1).lo_peer)
+          | _ ->
+            let mk c = { vo_local = unhex (String.trim c); vo_rej = []; vo_peer = List.init 8 (fun _ -> N0) } in
+            let st = [| mk c0; mk c1 |] in
+            let outs = List.map (fun tok ->
+                let i = Char.code tok.[0] - 48 in
+                let tl = String.sub tok 2 (String.length tok - 2) in
+                let op = match tok.[1] with
+                  | 'q' -> VReq (opts_of tl, oracle) | 'a' -> VAck (opts_of tl) | 'n' -> VNak (opts_of tl) | 'j' -> VRej (opts_of tl)
+                  | _ -> failwith "op" in
+                let (s', r) = v6obj_step st.(i) op in
+                st.(i) <- s';
+                match r with Some r -> show_res ~sugg:true r | None -> "B=" ^ show_opts (v6_build s')) ops in
+            emit (String.concat " | " outs ^ " ; P=" ^ hexs st.(0).vo_peer ^ " ; P=" ^ hexs st.(1).vo_peer))
+       | _ -> emit "badline")
     | "hi" :: pa :: d1 :: d2 :: ops ->
       let s0 = { io_cfg = ipcp_cfg_of pa d1 d2; io_peer = ipeer0 } in
       let (outs, s) = List.fold_left (fun (acc, s) tok ->
